@@ -353,6 +353,7 @@ func (s *Store) Snapshot() (snapshot *Store) {
 				rootLock: collOrig.rootLock,
 				root:     root,
 			}
+			verifYield(3)
 		}
 		if complete {
 			return res
